@@ -120,3 +120,20 @@ fn vm_le_bytes() {
     assert!(u16::from_le_bytes([b0, b1]) == (b0 as u16) | ((b1 as u16) << 8));
     assert!(u16::from_be_bytes([b0, b1]) == (b1 as u16) | ((b0 as u16) << 8));
 }
+
+/// C02 (unit `typecheck`): relations between the f64 classification predicates that the guard of the polymorphic-literal
+/// arm of the type checker is written with - `is_zero` is num_traits' (`x == 0.0`, both signed zeros)
+#[kani::proof]
+fn ieee_classification() {
+    use num_traits::Zero;
+    let x = any_number().to_f64();
+    assert!(x.is_zero() == (x == 0.0));
+    assert!(x.is_finite() == (!x.is_infinite() && !x.is_nan()));
+    if x.is_normal() {
+        assert!(!x.is_zero() && !x.is_infinite() && !x.is_nan() && !x.is_subnormal());
+    }
+    if x.is_subnormal() {
+        assert!(!x.is_zero() && !x.is_infinite() && !x.is_nan() && !x.is_normal());
+    }
+    assert!(x.is_zero() || x.is_infinite() || x.is_nan() || x.is_normal() || x.is_subnormal());
+}
